@@ -63,6 +63,40 @@ CHECKS = {
         "encoder really uses is checked in Wire.tla (C06).",
    technique="TLA+ offset rules checked by TLC; every state materialised, iterators and @print intrinsics compared",
    design="4 C08"),
+ "C06": dict(
+   text="TLC checks on Wire.tla that the Specification's bit-level encoder and total decoder round-trip, that the encoded "
+        "length is a member of the independently specified bit length set (LengthInBLS couples the two layout computations "
+        "the property names), that padding / defaults behave as stated and that iterator offsets are the positions the "
+        "encoder uses, for every (type, value, header) of the universe. Every state is replayed: serialize() must equal the "
+        "specification's bytes exactly, deserialize() the canonical value, relaxed forms and omitted default fields the same "
+        "bytes, and the length must be in the real type's bit_length_set.",
+   note="Floats are opaque bit patterns with exactly representable values: IEEE-754 conversion (rounding, NaN, subnormals, "
+        "overflow to infinity) is numeric accuracy and is NOT decided. Integer widths in the enumerated universe are <= 16; "
+        "widths 1..64 x cast modes are sampled by the harness with closed-form expectations. UTF-8 arrays are outside.",
+   technique="TLA+ encoder/decoder spec checked by TLC; every (type,value) state replayed into serialize/deserialize, bytes compared",
+   design="4 C06"),
+ "C07": dict(
+   text="TLC checks on Wire.tla that the specification's decoder is total and obeys FixedPoint, TruncationIgnored and "
+        "ZeroExtension (with the delimiter-header carve-out) on every bit string up to the bound. The real deserialize() is "
+        "then called on exhaustively and systematically enumerated byte strings for every type of the universe; each call "
+        "is recorded and judged by TLC against the specification's decoder (call records, total verdict); any exception "
+        "other than SerDesError / ValueError is a violation; returned objects are re-serialised and re-read.",
+   note="Bit strings <= 8 bits for two-level types (quick) / <= 16 bits (thorough) on the specification; on the code: all "
+        "strings <= 1 byte, 600+ two-byte strings, every prefix and single-bit corruption of four valid representations, "
+        "junk / zero suffixes, random strings <= 16 bytes, for up to 500 types (quick, sampled) / all types (thorough). "
+        "Results containing NaN are skipped (payload does not survive a Python float).",
+   technique="TLA+ total decoder checked by TLC; recorded deserialize() calls validated against the spec by TLC",
+   design="4 C07"),
+ "C14": dict(
+   text="TLC checks on Evolve.tla that a container's bit length set, extent and field offsets do not depend on the revision "
+        "of a nested delimited type and that data written with one revision is read with the other as the property states "
+        "(forward and backward), for eight container shapes x base / appended field lists x extents x all values. Every "
+        "state is replayed with both revisions materialised as D.1.0 / D.1.1 in one namespace and one process.",
+   note="Container shapes: field, field between fields, fixed / variable array element followed by a field, union variant "
+        "followed by a field, inside another delimited type, union at top, the revision itself with its header. Quick uses "
+        "the lean value sets (8k states), thorough the rich ones (730k states).",
+   technique="TLA+ spec of cross-revision reads checked by TLC; every state replayed through serialize/deserialize of both revisions",
+   design="4 C14"),
 }
 
 NOT_YET = "check not built yet in this round (see DESIGN.md section 9 build order)"
